@@ -6,6 +6,7 @@ OWN = "C15"
 
 def run(chk, tier):
     c06.run_shared(chk, tier, OWN)
+    c06.judge_recorded_suite(chk, OWN)
     chk.rule = c06_rule()
     chk.assumptions += ["harness projection of an index (dict items, dtype, validate(True))", "rank abstraction for values beyond 31 bits"]
 
